@@ -213,13 +213,15 @@ def _has_sig(mod, scn, sig):
     return None
 
 
-def shrink(mod, scenario, sig, max_exec=400):
+def shrink(mod, scenario, sig, max_exec=400, deadline=None):
     """Delta debugging over scenario['steps'], then property-specific simplifications.
     A candidate is kept only if it is still valid and the *same signature* recurs."""
     budget = [max_exec]
     best = copy.deepcopy(scenario)
 
     def test(c):
+        if deadline is not None and time.time() > deadline:
+            budget[0] = 0
         if budget[0] <= 0:
             return False
         budget[0] -= 1
@@ -367,18 +369,20 @@ def replay_fresh(path):
 # ---------------------------------------------------------------------------------
 
 
-def shrink_fresh(pid, mod, seed, scenario, sig, vv, path, budget=40):
+def shrink_fresh(pid, mod, seed, scenario, sig, vv, path, budget=40, deadline=None):
     """ddmin over the step list where every candidate is executed in a fresh interpreter."""
     steps_key = getattr(mod, 'STEPS_KEY', 'steps')
     best, best_path, best_v = copy.deepcopy(scenario), path, vv
     used = 0
     n = 2
     while used < budget and len(best.get(steps_key, [])) >= 2:
+        if deadline is not None and time.time() > deadline:
+            break
         steps = best[steps_key]
         chunk = max(1, len(steps) // n)
         reduced = False
         for start in range(0, len(steps), chunk):
-            if used >= budget:
+            if used >= budget or (deadline is not None and time.time() > deadline):
                 break
             cand = copy.deepcopy(best)
             cand[steps_key] = steps[:start] + steps[start + chunk:]
@@ -509,6 +513,8 @@ def run_check(pid, tier, base_seed=None, budget_s=None, workers=None, runs=None)
     known_seen = []
     unstable = []
     exit_code = 0
+    # minimisation is bounded in wall-clock time as a whole: past the deadline a violation is reported with the scenario as found
+    shrink_deadline = time.time() + (float(os.environ.get('VERIF_SHRINK_WALL_S') or 0) or (getattr(mod, 'SHRINK_WALL_S', 420) if tier == 'quick' else 1800))
     for sig in sorted(by_sig):
         cases = sorted(by_sig[sig], key=lambda c: (len(canon(c[1])), c[0]))
         seed, scn, v = cases[0]
@@ -518,12 +524,17 @@ def run_check(pid, tier, base_seed=None, budget_s=None, workers=None, runs=None)
             known_seen.append({'signature': sig, 'what': k['what'], 'count': cnt, 'seed': seed})
             print(f'KNOWN-FINDING: property={pid} {k["what"]} [signature={sig}] ({cnt} occurrences, e.g. seed {seed})')
             continue
-        if len(reported) >= getattr(mod, 'MAX_SHRINK_SIGS', 6):
-            reported.append({'signature': sig, 'seed': seed, 'count': len(cases), 'replay': None})
-            print(f'VIOLATION property={pid} replay=(not minimised: seed {seed}, signature {sig})')
+        if len(reported) >= getattr(mod, 'MAX_SHRINK_SIGS', 6) or time.time() > shrink_deadline:
+            # reported as found (not minimised, not re-verified): the replay file still reproduces the run that found it
+            clean_v = {k: x for k, x in v.items() if k != '_history'}
+            hist = v.get('_history') or []
+            p0 = write_replay(pid, seed, scn, clean_v, {}, preamble={'tier': tier, 'seeds': list(hist)} if hist else None)
+            reported.append({'signature': sig, 'seed': seed, 'count': total['sig_counts'].get(sig, len(cases)), 'replay': p0, 'shrink_execs': 'not minimised'})
+            print(f'VIOLATION property={pid} replay={p0}')
+            print(f'  signature: {sig}   occurrences: {total["sig_counts"].get(sig, len(cases))}   (as found: not minimised)')
             exit_code = 1
             continue
-        small, execs = shrink(mod, scn, sig, max_exec=getattr(mod, 'SHRINK_EXECS', 400))
+        small, execs = shrink(mod, scn, sig, max_exec=getattr(mod, 'SHRINK_EXECS', 400), deadline=shrink_deadline)
         out = run_one(mod, small, want_log=True)
         vv = next((x for x in out.get('violations', []) if x['sig'] == sig), None)
         path = ok = None
@@ -565,7 +576,7 @@ def run_check(pid, tier, base_seed=None, budget_s=None, workers=None, runs=None)
                         continue
                     # minimise the preamble with fresh-process executions (which earlier runs are needed?)
                     best, used, n2 = list(hist), 0, 2
-                    while used < 30 and len(best) >= 2:
+                    while used < 30 and len(best) >= 2 and time.time() < shrink_deadline:
                         size = max(1, len(best) // n2)
                         reduced = False
                         for st_ in range(0, len(best), size):
@@ -604,7 +615,7 @@ def run_check(pid, tier, base_seed=None, budget_s=None, workers=None, runs=None)
                                 f'found in a fresh interpreter — it depends on what the worker process executed before that run')
                 continue
             seed, scn2, vv, path = found
-            small, path, vv, fexecs = shrink_fresh(pid, mod, seed, scn2, sig, vv, path)
+            small, path, vv, fexecs = shrink_fresh(pid, mod, seed, scn2, sig, vv, path, deadline=shrink_deadline)
             execs = f'{execs} in-process (unstable) + {fexecs} fresh-process'
             print(f'  note: minimisation of {sig} was redone with fresh-process executions (state leaks between executions in one process)')
         reported.append(
